@@ -182,6 +182,9 @@ use std::collections::HashMap;
 //@ensures label=ready_once_in_order_pending_outside_ready props=C17
     ready_sub(r@) == mm_spec(collect_spec(*self, contents@, true).0),
     pending_sub(r@) == pend_kept(mm_spec(collect_spec(*self, contents@, true).0), mm_spec(collect_spec(*self, contents@, true).1), 0, mm_spec(collect_spec(*self, contents@, true).1).len() as int),
+//@ensures label=combined_list_in_source_order_when_order_compatible props=C17
+    order_compatible(mm_spec(collect_spec(*self, contents@, true).0), mm_spec(collect_spec(*self, contents@, true).1))
+        ==> list_sorted_by_start(r@),
 //@extendmap
 //@tupleclone "v.clone()" arity=2
 //@lettype merged_ranges type="Vec<(RemoveMarker, bool)>"
@@ -225,6 +228,7 @@ use std::collections::HashMap;
         lemma_mm_core(f1, lo1, hi1);
         assert(markers_sorted_by_start(mm_spec(f1)));
         lemma_merge_all_final_sub(mm_spec(f0), mm_spec(f1));
+        if order_compatible(mm_spec(f0), mm_spec(f1)) { lemma_merge_all_final_sorted(mm_spec(f0), mm_spec(f1)); }
     }
 //@at loop 1 start
     let ghost __m0 = merged_ranges@;
